@@ -31,6 +31,7 @@ CONSTANTS
     Coarse,         \* TRUE: a lookup starts only when no other lookup is in progress (sequential multi-client histories)
     MaxFaults,      \* number of corrupted responses (network or cache) per behaviour
     FaultKinds,     \* enabled corruption kinds
+    InitDiskFull,     \* TRUE: the cache starts with every complete tile of timeline A (left by a client that went further) and nothing else
     PartialMayBeGone, \* TRUE: the server may lack a partial tile whose full tile exists (client falls back to the full tile)
     TileDetail,     \* TRUE: tiles fetched one by one and authenticated; FALSE: hash reads are atomic and honest
     MaxRestarts,    \* client restarts (memory wiped, disk and configuration kept)
@@ -150,7 +151,10 @@ FoldH(hs) == IF Len(hs) = 1 THEN hs[1] ELSE Node(hs[1], FoldH(Tail(hs)))
 \* ------------------------------------------------------------------ init
 Init ==
     /\ cfg \in InitCfgs
-    /\ disk = <<>>                      \* function with empty domain
+    /\ disk = IF InitDiskFull
+              THEN LET fulls == {x \in Tiles!AllTiles(H, SizeA) : x.w = Pow2(H)} IN
+                   [f \in {TileFile(x) : x \in fulls} |-> TrueTileData("A", CHOOSE x \in fulls : TileFile(x) = f)]
+              ELSE <<>>                   \* function with empty domain
     /\ srv \in {[n |-> [tl \in Timelines |-> InitServed[tl]], grown |-> 0, cur |-> tl0, sw |-> 0] : tl0 \in ServeTls}
     /\ mem = [c \in Clients |-> EmptyMsg]
     /\ inited = [c \in Clients |-> "no"]
